@@ -322,7 +322,7 @@ func (s *session) SetID(newID string) {
 	s.socket.SetID(newID)
 	hub := s.peer.sessHub
 	hub.set(s)
-	hub.delete(oldID)
+	hub.delete(oldID, s)
 	Tracef("session changes id: %s -> %s", oldID, newID)
 }
 
@@ -772,7 +772,7 @@ func (s *session) closeLocked() error {
 	if !s.tryChangeStatus(statusActiveClosing, statusOk, statusPreparing) {
 		return nil
 	} // readDisconnected is being called
-	s.peer.sessHub.delete(s.ID())
+	s.peer.sessHub.delete(s.ID(), s)
 	s.notifyClosed()
 	s.graceCtxWait()
 	s.graceCallCmdWaitGroup.Wait()
@@ -792,7 +792,7 @@ func (s *session) readDisconnected(oldConn net.Conn, err error) {
 		s.changeStatus(statusPassiveClosing)
 	}
 
-	s.peer.sessHub.delete(s.ID())
+	s.peer.sessHub.delete(s.ID(), s)
 
 	var reason string
 	if err != nil && err != socket.ErrProactivelyCloseSocket {
@@ -1006,9 +1006,12 @@ func (sh *SessionHub) len() int {
 	return sh.sessions.Len()
 }
 
-// delete deletes the *session for a id.
-func (sh *SessionHub) delete(id string) {
-	sh.sessions.Delete(id)
+// delete deletes the index entry of id if it still belongs to sess
+// (another session may have taken over the id meanwhile).
+func (sh *SessionHub) delete(id string, sess *session) {
+	if cur, ok := sh.sessions.Load(id); ok && cur.(*session) == sess {
+		sh.sessions.Delete(id)
+	}
 }
 
 const (
